@@ -1,4 +1,5 @@
 (** C19 — obligations over the facts regenerated from /repo (Gen/C19Facts.v). *)
+From Coq Require Import String.
 From Coq Require Import List Bool Arith.
 Import ListNotations.
 Require Import Nib.C19.Sites Nib.C19.Model Nib.C19.Spec Nib.C19.Property.
@@ -7,7 +8,18 @@ Require Import Nib.Gen.C19Facts.
 Theorem C19_current_sites_ok : sites_ok current_sites = true.
 Proof. vm_compute. reflexivity. Qed.
 
+(** the order fact: in the current tree x/evm's EndBlocker runs once, after x/gov's and every other
+    EndBlocker that is not known to be inert *)
+Theorem C19_current_wiring_ok : wiring_ok current_wiring = true.
+Proof. vm_compute. reflexivity. Qed.
+
 Theorem C19_holds_for_current_tree :
-  forall ops : list op, P (snd (run_block current_sites ops)).
-Proof. intro ops. exact (C19_indices_consecutive current_sites ops C19_current_sites_ok). Qed.
+  forall b : block,
+  P (r_emits (run_full current_sites current_wiring b)) /\
+  Pbloom (r_emits (run_full current_sites current_wiring b)) (r_pubs (run_full current_sites current_wiring b)).
+Proof.
+  intro b. split.
+  - exact (C19_indices_consecutive current_sites current_wiring b C19_current_sites_ok).
+  - exact (proj1 (C19_bloom_is_union current_sites current_wiring b C19_current_sites_ok C19_current_wiring_ok)).
+Qed.
 Print Assumptions C19_holds_for_current_tree.
